@@ -582,7 +582,7 @@ def _tamper(r, tamper):
             c.key = t[2]
 
 
-def impl_validate(spec, vmode, reset, vscheme, tamper=None):
+def impl_validate(spec, vmode, reset, vscheme, tamper=None, pre=0):
     ensure_repo()
     from maflib.record import MafRecord
     try:
@@ -590,6 +590,11 @@ def impl_validate(spec, vmode, reset, vscheme, tamper=None):
     except Exception as e:  # noqa
         return ["noparse", c_exn(e)]
     _tamper(r, tamper)
+    for _ in range(pre):            # the same record object validated (Silent) before the observed call
+        try:
+            r.validate(validation_stringency=py_mode("Silent"), reset_errors=reset, scheme=make_scheme(vscheme))
+        except Exception:  # noqa
+            break
     with LogCapture() as cap:
         try:
             r.validate(validation_stringency=py_mode(vmode), reset_errors=reset, scheme=make_scheme(vscheme))
@@ -599,14 +604,14 @@ def impl_validate(spec, vmode, reset, vscheme, tamper=None):
         return ["parsed", {"log": cap.take(), "res": res}]
 
 
-def wire_validate(spec, vmode, reset, vscheme, tamper=None):
+def wire_validate(spec, vmode, reset, vscheme, tamper=None, pre=0):
     ensure_repo()
     ids = Ids()
     rs, sch = m_recspec(spec, ids)
     vs = make_scheme(vscheme)
     tb = m_tables([s for s in (sch, vs) if s is not None], [spec["line"]], ids, [spec["names"]])
     tw = [([0, S(t[1]), OPT(t[2])] if t[0] == "idx" else [1, S(t[1]), S(t[2])]) for t in (tamper or [])]
-    return [3, rs, m_mode(vmode), B(reset), ([] if vs is None else [m_scheme(vs, ids)]), tb, tw]
+    return [3, rs, m_mode(vmode), B(reset), ([] if vs is None else [m_scheme(vs, ids)]), tb, tw, pre]
 
 
 def dec_validate(sx):
@@ -909,7 +914,11 @@ BAD_FIELDS = ["", "x y", "-1", "0", "1.5", "NaN", "é", "a\rb", "a\nb", "\x00", 
               "0x10", "1_000", "+5", " 7 ", "99999999999999999999999", "TRUE", "a;b;", ";",
               "12%", "5%d", "%s", "100%(SNP)s", "%", "%%", "{", "}", "{0}", "{x}", "a\\b", "\\", "'", '"', "it's", "`"]
 # texts with characters that matter to message formatting (%, braces, backslash, quotes)
-FORMAT_TEXTS = ["12%", "5%d", "%s", "100%(SNP)s", "%", "{", "}", "{0}", "{error}", "a\\b", "\\n", "'", '"', "'%s'"]
+FORMAT_TEXTS = ["12%", "5%d", "%s", "100%(SNP)s", "%", "{", "}", "{0}", "{error}", "a\\b", "\\n", "'", '"', "'%s'",
+                # numbers no integer can hold, and spellings float() accepts but int() does not
+                "inf", "-inf", "Infinity", "nan", "1e309", "-1e400", "1e5", "100.0", "1.0e2", "0x1F", "١٢٣"]
+# a lone CR (or a TAB-free control character) inside a cell: the cell's text is kept, validation objects
+CR_TEXTS = ["a\rb", "\r", "x\r", "\rx", "a\r\rb"]
 # chromosome / position boundary texts (typed columns turn "0", "00", "-0" into the int 0)
 ZERO_TEXTS = ["0", "00", "-0", "", "000", "+0", " 0"]
 PLAIN_NAMESETS = [
@@ -1098,6 +1107,26 @@ def typed_special_cases():
             bad[names.index(n)] = t
             out.append({"lines": ["#version gdc-1.0.0", col, "\t".join(good), "\t".join(bad)], "override": None,
                         "shape": shape("format-text")})
+    # a lone CR inside a cell of a typed column that keeps text
+    for t in CR_TEXTS:
+        keep = [n for n in names if n not in _rejecting_columns(sch, t)]
+        for n in (keep[:2] + [rng.choice(keep)]) if keep else []:
+            good = valid_line(rng, sch, chrom="chr1", start=10).split("\t")
+            bad = list(good)
+            bad[names.index(n)] = t
+            out.append({"lines": ["#version gdc-1.0.0", col, "\t".join(good), "\t".join(bad), "\t".join(good)],
+                        "override": None, "shape": shape("cr-text")})
+    # all-digit barcodes under the barcode order (typed text columns must keep them text)
+    ti, ni = names.index("Tumor_Sample_Barcode"), names.index("Matched_Norm_Sample_Barcode")
+    for b1, b2 in (("123", "TCGA-A"), ("TCGA-A", "0042"), ("7", "7"), ("10", "9")):
+        rows = []
+        for b in (b1, b2):
+            f = valid_line(rng, sch, chrom="chr1", start=5).split("\t")
+            f[ti] = b
+            f[ni] = b
+            rows.append("\t".join(f))
+        out.append({"lines": ["#version gdc-1.0.0", "#sort.order BarcodesAndCoordinate", col] + rows, "override": None,
+                    "shape": shape("digit-barcode", "BarcodesAndCoordinate", False)})
     ci, si, ei = names.index("Chromosome"), names.index("Start_Position"), names.index("End_Position")
     for order in ("Coordinate", "BarcodesAndCoordinate", "Unsorted"):
         for contigs in (None, "1,0", "0,1,X", "0", "00,0"):
@@ -1164,6 +1193,20 @@ def isspace_obligation():
         return ("is_space-matches-host-isspace", False, "lib/Str.v is_space changed; update the transcription in rd_common.py")
     bad = [c for c in range(0x110000) if model_is_space(c) != chr(c).isspace()]
     return ("is_space-matches-host-isspace", not bad, "swept 0x110000 code points; mismatches: %r" % bad[:5])
+
+
+_PINNED = None
+
+
+def pinned_pairs():
+    """(version, annotation) of every documented layout, from the pinned spec (harness/spec_layouts.json) - not from
+    the library's schema files"""
+    global _PINNED
+    if _PINNED is None:
+        import json
+        d = json.load(open("/verif/harness/spec_layouts.json"))["layouts"]
+        _PINNED = sorted((l["version"], a) for a, l in d.items())
+    return _PINNED
 
 
 # ------------------------------------------------------------------ the header spec in python (oracles of C13 / C17)
